@@ -203,8 +203,13 @@ def r4(ctx):
               "a cancel timeout is reported against the request's own key and exchange as a Timeout failure", got=r, key="event")
     ot = ctx.fbody(name="process_open_timeout", self_adt=EM, trait="")
     r = render(ot.return_term())
-    ok = ("exchange: order.key.exchange" in r and "key: order.key, side: order.state.side, price: order.state.price, quantity: order.state.quantity" in r
-          and "ConnectivityError::Timeout{}" in r and "AccountEventKind::OrderSnapshot" in r)
+    ev = common.agg_fields(ot.return_term(), "AccountEvent::AccountEvent")
+    of = common.agg_fields(ot.return_term(), "order::Order::Order")
+    ok = (ev.get("exchange") == "order.key.exchange" and ev.get("kind", "").startswith("AccountEventKind::OrderSnapshot{") and
+          {k: of.get(k) for k in ("key", "side", "price", "quantity", "kind", "time_in_force")} ==
+          {"key": "order.key", "side": "order.state.side", "price": "order.state.price", "quantity": "order.state.quantity",
+           "kind": "order.state.kind", "time_in_force": "order.state.time_in_force"} and
+          "OrderError::Connectivity{0: ConnectivityError::Timeout{}}" in of.get("state", ""))
     ctx.check("ExecutionManager::process_open_timeout", ok,
               "an open timeout is reported as a failed (inactive, Timeout) snapshot of the request's own order", got=r[:400], key="event")
     cr = ctx.fbody(name="process_cancel_response", self_adt=EM, trait="")
